@@ -202,6 +202,15 @@ class Flow:
                     hit = [d for d, v in zip(ds, vs) if v in want]
                     if len(hit) == 1 and hit[0][0] == 'assign' and (el['dc'] in ('Ok', 'Some', 'Continue') or '<residual>' not in vs):
                         return self.rvalue(hit[0][3], depth + 1)
+                elif len(ds) >= 2 and el['dc'] in ('Ok', 'Some', 'Continue'):
+                    # every assignment but one is the failing arm of a `?` (an Err / None): read as the success variant, the
+                    # value can only be that one assignment's (a call result returned as the helper's tail expression)
+                    rest = [d for d, v in zip(ds, vs) if v != '<residual>']
+                    if len(rest) == 1 and len(ds) - 1 == sum(1 for v in vs if v == '<residual>'):
+                        d = rest[0]
+                        inner = self.call(d[2], d[1], depth + 1) if d[0] == 'call' else (self.rvalue(d[3], depth + 1) if d[0] == 'assign' else None)
+                        if inner is not None and inner[0] != 'local':
+                            return self.project(inner, el, depth + 1)
             return ('variant', e, el['dc'])
         return ('top',)
 
